@@ -40,7 +40,8 @@ NoStop == [t |-> -1, views |-> <<>>, live |-> {}]
 \* two full passes over the member list at the slowest awareness-scaled pace, plus the
 \* staggered start of the probe ticker, plus the maximum suspicion timeout, plus the
 \* time a packet may be in flight
-MaxSuspicion(s) == s.maxMult * ((s.suspMult * NodeScale1000(s.nodes) * s.probeInterval) \div 1000)
+\* (one division at the end: the code computes in nanoseconds, max = maxMult x min without rounding in between)
+MaxSuspicion(s) == (s.maxMult * s.suspMult * NodeScale1000(s.nodes) * s.probeInterval) \div 1000
 DetectBound(s)  == (2 * s.nodes + 2) * s.awMax * s.probeInterval + MaxSuspicion(s) + s.maxDelay
 
 ViewNames(v) == {v.members[i].name : i \in DOMAIN v.members}
@@ -67,7 +68,7 @@ CVacuous(name, e) == PrintT(<<"VACUOUS", name, l, e.case, e.g>>)
 
 \* ---- the probe schedule (C03: every live peer once per pass while membership is stable, at least once
 \* in any two passes otherwise, never the node itself, never a dead peer) --------------------------------
-NoPass == [picks |-> << >>, stable |-> TRUE, elig |-> {}, full |-> FALSE, missed |-> << >>]
+NoPass == [picks |-> << >>, stable |-> TRUE, elig |-> {}, full |-> FALSE, missed |-> << >>, flap |-> {}]
 PassOf(n) == IF n \in DOMAIN pass THEN pass[n] ELSE NoPass
 Count(f, x) == IF x \in DOMAIN f THEN f[x] ELSE 0
 Peers(e) == {m.name : m \in e.members} \ {e.n}
@@ -96,11 +97,13 @@ PassUpdate(e) ==
          pass' = put([p EXCEPT !.picks = [x \in DOMAIN p.picks \cup {e.node} |-> Count(p.picks, x) + (IF x = e.node THEN 1 ELSE 0)]])
     [] e.ev = "Reap" ->
          LET el == Peers(e) IN
-         pass' = put([picks |-> << >>, stable |-> TRUE, elig |-> el, full |-> TRUE,
-                      missed |-> [x \in el |-> IF p.full /\ x \in p.elig /\ Count(p.picks, x) = 0
+         \* a pass without a probe counts against a peer only if the observer listed it during the WHOLE pass
+         \* (a peer that was dead when the cursor came by and alive again afterwards was rightly skipped)
+         pass' = put([picks |-> << >>, stable |-> TRUE, elig |-> el, full |-> TRUE, flap |-> {},
+                      missed |-> [x \in el |-> IF p.full /\ x \in p.elig /\ x \notin p.flap /\ Count(p.picks, x) = 0
                                                 THEN Count(p.missed, x) + 1 ELSE 0]])
     [] e.ev = "NodeOp" /\ (IsAbsent(e.pre) # IsAbsent(e.post) \/ Listed(e.pre) # Listed(e.post)) ->
-         pass' = put([p EXCEPT !.stable = FALSE])
+         pass' = put([p EXCEPT !.stable = FALSE, !.flap = @ \cup {e.claim.node}])
     [] OTHER -> UNCHANGED pass
 
 \* C04: predicates of a healthy run
